@@ -285,6 +285,11 @@ func (k Keeper) verifyEthBlockProposal(sdkctx sdk.Context, msg *types.MsgNewEthB
 			return fmt.Errorf("incorrect parent block hash: expected %d got %d", height, payload.BlockNumber)
 		}
 
+		// the block hash is saved as the parent of the next block, it must be exactly a hash
+		if len(payload.BlockHash) != common.HashLength {
+			return fmt.Errorf("invalid block hash length: %d", len(payload.BlockHash))
+		}
+
 		// verify if the requests are valid
 		_, _, lockingReqs, err := goattypes.DecodeRequests(payload.Requests)
 		if err != nil {
